@@ -39,6 +39,8 @@ type Result struct {
 	Disagree bool
 }
 
+var defAxiomsGlobal map[string][]*Term
+
 type solverCmd struct {
 	name string
 	args func(timeout int, file string) []string
@@ -169,6 +171,34 @@ func groupObligations(obls []*Obligation, axioms map[string][]*Term) []*Group {
 	return out
 }
 
+// relevantAxioms returns the definitional axioms of the defined symbols occurring (transitively) in the formulas.
+func relevantAxioms(defs map[string][]*Term, fs ...*Term) []*Term {
+	seenT := map[int]bool{}
+	seenK := map[string]bool{}
+	var out []*Term
+	var walk func(t *Term)
+	walk = func(t *Term) {
+		if seenT[t.ID] {
+			return
+		}
+		seenT[t.ID] = true
+		if t.Op == "app" && !seenK[t.Name] {
+			seenK[t.Name] = true
+			for _, a := range defs[t.Name] {
+				out = append(out, a)
+				walk(a)
+			}
+		}
+		for _, a := range t.Args {
+			walk(a)
+		}
+	}
+	for _, f := range fs {
+		walk(f)
+	}
+	return out
+}
+
 func (g *Group) formula() *Term {
 	var alts []*Term
 	for _, o := range g.Obls {
@@ -226,6 +256,7 @@ func discharge(groups []*Group, workDir string, timeout int, confirm bool, worke
 		if g.Kind != "cover" {
 			// axioms are conservative definitions of fresh symbols: a cover (satisfiability) query does not need them
 			asserts = append(asserts, g.Axioms...)
+			asserts = append(asserts, relevantAxioms(defAxiomsGlobal, f)...)
 		}
 		asserts = append(asserts, f)
 		names, terms := modelTerms(g)
@@ -297,6 +328,8 @@ func discharge(groups []*Group, workDir string, timeout int, confirm bool, worke
 		fileB string
 	}
 	var subs []sub
+	subNames := map[int][]string{}
+	satOut := map[int]string{}
 	for i, r := range results {
 		if r == nil || r.Verdict != "unknown" || len(groups[i].Obls) < 2 || groups[i].Kind == "cover" {
 			continue
@@ -308,8 +341,11 @@ func discharge(groups []*Group, workDir string, timeout int, confirm bool, worke
 			}
 			p := NewPrinter()
 			asserts := append([]*Term{}, groups[i].Axioms...)
+			asserts = append(asserts, relevantAxioms(defAxiomsGlobal, f)...)
 			asserts = append(asserts, f)
-			q := p.Query(asserts, nil)
+			names, terms := modelTerms(groups[i])
+			q := p.Query(asserts, terms)
+			subNames[i] = names
 			file := fmt.Sprintf("%s.path%d.smt2", strings.TrimSuffix(r.File, ".smt2"), k)
 			os.WriteFile(file, []byte(q), 0o644)
 			fileB := ""
@@ -317,7 +353,7 @@ func discharge(groups []*Group, workDir string, timeout int, confirm bool, worke
 				pb := NewPrinter()
 				pb.noLambda = true
 				fileB = strings.TrimSuffix(file, ".smt2") + ".ax.smt2"
-				os.WriteFile(fileB, []byte(pb.Query(asserts, nil)), 0o644)
+				os.WriteFile(fileB, []byte(pb.Query(asserts, terms)), 0o644)
 			}
 			subs = append(subs, sub{i, q, file, fileB})
 		}
@@ -340,6 +376,9 @@ func discharge(groups []*Group, workDir string, timeout int, confirm bool, worke
 					if bad[sb.gi] == "" || v == "sat" {
 						bad[sb.gi] = v + " on " + filepath.Base(sb.file) + ": " + firstLines(out, 2)
 					}
+					if v == "sat" && satOut[sb.gi] == "" {
+						satOut[sb.gi] = out
+					}
 				}
 				mu.Unlock()
 			}(sb)
@@ -355,6 +394,11 @@ func discharge(groups []*Group, workDir string, timeout int, confirm bool, worke
 				r.Solver = used[i] + " (path-split)"
 			} else {
 				r.Output += "\npath-split: " + bad[i]
+				if so, ok := satOut[i]; ok {
+					r.Verdict = "sat"
+					r.Solver = used[i] + " (path-split)"
+					r.Model = parseModel(so, subNames[i])
+				}
 			}
 		}
 	}
